@@ -40,6 +40,17 @@ import (
 //	    e is *Error with equal code, equal message, JSON-equal data;
 //	(d) no ErrCoder in h's tree and a context sentinel in it: e == that sentinel.
 //
+// Block X repeats the comparison for handlers whose server-side context has
+// been cancelled before they return (Server.CancelRequest on the request's id,
+// called by the handler itself, by a second handler reached through a call or
+// through a notification, or by a goroutine outside any handler) while the
+// caller's own context stays live: clauses (a)-(d) are applied unchanged, so
+// only an error that IS a context error (clause d) may surface as a context
+// sentinel, and code, message and data of every other error are as without
+// the cancellation. Whether the cancellation took effect before the handler
+// returned is observed (ctx.Err() in the handler) and feeds the observation
+// floor only.
+//
 // Unmarshalable results (block U, in a synctest bubble so that a missing
 // response is a quiescent state and not a hang): the call completes with an
 // error and the server's wire record is a well-formed error response with the
@@ -694,6 +705,8 @@ func (r *c14rig) stop(c *vt.Ctx) {
 type c14assigner struct {
 	h jrpc2.Handler
 	u jrpc2.Handler
+	k jrpc2.Handler // "cancel": cancels another request (block X)
+	s jrpc2.Handler // "sync": returns at once (block X)
 }
 
 func (a c14assigner) Assign(_ context.Context, m string) jrpc2.Handler {
@@ -702,18 +715,43 @@ func (a c14assigner) Assign(_ context.Context, m string) jrpc2.Handler {
 		return a.h
 	case "u":
 		return a.u
+	case "cancel":
+		return a.k
+	case "sync":
+		return a.s
 	}
 	return nil
 }
 
-// c14grammarBlock runs one block of generated handler errors.
-func c14grammarBlock(c *vt.Ctx, id string, n int) {
+// How the server-side context of a call of block X is ended before its
+// handler returns. The caller's own context stays live in every mode.
+const (
+	c14cancelNone   = iota // block G: the context is live when the handler returns
+	c14cancelSelf          // the handler calls Server.CancelRequest on its own id
+	c14cancelPeer          // a second handler (method "cancel") calls Server.CancelRequest(id)
+	c14cancelNote          // the same second handler, invoked by a notification
+	c14cancelDirect        // a harness goroutine outside any handler calls Server.CancelRequest(id)
+	c14cancelModes
+)
+
+var c14cancelName = [...]string{"live", "self", "peer-call", "peer-notification", "direct"}
+
+// c14grammarBlock runs one block of generated handler errors. With cancelled
+// set (block X) the server-side context of every call is ended before the
+// handler returns its error, in one of the ways c14cancelSelf/Peer/Note/Direct,
+// while the caller keeps waiting on a live context: the error that reaches the
+// caller must be the same as without the cancellation.
+func c14grammarBlock(c *vt.Ctx, id string, n int, cancelled bool) {
 	rng := c.Env.Rand(id)
 	nodes := make([]*c14node, n)
+	modes := make([]int, n)
 	for i := range nodes {
 		nodes[i] = c14gen(rng, rng.IntN(4), true)
 		if d := nodes[i].depth(); d > 3 {
 			panic("harness bug: depth")
+		}
+		if cancelled {
+			modes[i] = 1 + rng.IntN(c14cancelModes-1)
 		}
 	}
 	// constructor sanity: the *Error kinds carry the fields the harness expects
@@ -732,29 +770,88 @@ func c14grammarBlock(c *vt.Ctx, id string, n int) {
 	}
 	var hmu sync.Mutex
 	returned := make([]int, n)
+	ended := make([]bool, n)            // the handler's context had ended when it returned
+	idc := make([]chan string, n)       // the handler publishes its request id (peer, rpc.cancel)
+	release := make([]chan struct{}, n) // closed by the caller once the cancellation was ordered
+	if cancelled {
+		for i := range idc {
+			idc[i], release[i] = make(chan string, 1), make(chan struct{})
+		}
+	}
+	const callers = 4
+	var opts *jrpc2.ServerOptions
+	if cancelled {
+		// every caller has at most two handlers in flight (its call and "cancel"/"sync")
+		opts = &jrpc2.ServerOptions{Concurrency: 4 * callers}
+	}
 	rig := c14start(c, c14assigner{h: func(ctx context.Context, req *jrpc2.Request) (any, error) {
 		var p []int
 		if err := req.UnmarshalParams(&p); err != nil || len(p) != 1 || p[0] < 0 || p[0] >= n {
 			return nil, errors.New("harness: bad params")
 		}
-		hmu.Lock()
-		returned[p[0]]++
-		hmu.Unlock()
-		if p[0]%2 == 1 {
-			return "a result returned together with an error", nodes[p[0]].err
+		i := p[0]
+		switch modes[i] {
+		case c14cancelSelf:
+			jrpc2.ServerFromContext(ctx).CancelRequest(req.ID())
+		case c14cancelPeer, c14cancelNote, c14cancelDirect:
+			idc[i] <- req.ID()
+			select { // never blocks for good: the caller closes release[i] in every outcome
+			case <-ctx.Done():
+			case <-release[i]:
+			}
 		}
-		return nil, nodes[p[0]].err
-	}}, nil)
+		hmu.Lock()
+		returned[i]++
+		ended[i] = ctx.Err() != nil
+		hmu.Unlock()
+		if i%2 == 1 {
+			return "a result returned together with an error", nodes[i].err
+		}
+		return nil, nodes[i].err
+	}, k: func(ctx context.Context, req *jrpc2.Request) (any, error) {
+		var ids []string
+		if err := req.UnmarshalParams(&ids); err != nil || len(ids) != 1 {
+			return nil, errors.New("harness: bad params")
+		}
+		jrpc2.ServerFromContext(ctx).CancelRequest(ids[0])
+		return "ok", nil
+	}, s: func(context.Context, *jrpc2.Request) (any, error) { return "ok", nil }}, opts)
 	got := make([]error, n)
 	rsps := make([]*jrpc2.Response, n)
-	const callers = 4
+	bg := context.Background() // the callers' contexts never end
 	var wg sync.WaitGroup
 	for g := 0; g < callers; g++ {
 		wg.Add(1)
 		go func() {
 			defer wg.Done()
 			for i := g; i < n; i += callers {
-				rsps[i], got[i] = rig.cli.Call(context.Background(), "err", []int{i})
+				if modes[i] == c14cancelNone || modes[i] == c14cancelSelf {
+					rsps[i], got[i] = rig.cli.Call(bg, "err", []int{i})
+					continue
+				}
+				done := make(chan struct{})
+				go func() {
+					defer close(done)
+					rsps[i], got[i] = rig.cli.Call(bg, "err", []int{i})
+				}()
+				select {
+				case rid := <-idc[i]: // the handler is running and waits
+					switch modes[i] {
+					case c14cancelPeer:
+						// returns after the second handler called CancelRequest
+						rig.cli.Call(bg, "cancel", []string{rid})
+					case c14cancelNote:
+						// a call issued after a notification is not started
+						// before the notification has been handled
+						rig.cli.Notify(bg, "cancel", []string{rid})
+						rig.cli.Call(bg, "sync", nil)
+					default:
+						rig.srv.CancelRequest(rid)
+					}
+				case <-done: // the handler did not get that far; reported below
+				}
+				close(release[i])
+				<-done
 			}
 		}()
 	}
@@ -764,32 +861,51 @@ func c14grammarBlock(c *vt.Ctx, id string, n int) {
 	for i, nd := range nodes {
 		h, e := nd.err, got[i]
 		c.Eval(1)
+		failf := c.Failf
+		if cancelled {
+			// the rest of the loop compares exactly as for a live context:
+			// a cancellation of the request on the server must not change the
+			// error the handler chose to return.
+			failf = func(format string, args ...any) {
+				c.Failf("[server-side context of the call ended before the handler returned: %v, via %s; caller's context live] "+format,
+					append([]any{ended[i], c14cancelName[modes[i]]}, args...)...)
+			}
+			if !ended[i] {
+				// Server.CancelRequest / rpc.cancel did not end the context
+				// before the handler returned: not a C14 matter, but the case
+				// then says nothing about cancelled handlers.
+				c.Count("cancel_had_no_effect_before_return", 1)
+			} else {
+				c.Count("cancelled_handler_errors_compared", 1)
+				c.Count("cancelled_via_"+c14cancelName[modes[i]], 1)
+			}
+		}
 		if returned[i] != 1 {
-			c.Failf("handler for input %d ran %d times (harness expectation 1)", i, returned[i])
+			failf("handler for input %d ran %d times (harness expectation 1)", i, returned[i])
 			continue
 		}
 		if e == nil {
-			c.Failf("handler returned %s but Call returned a nil error (result %s)", nd, c14short(rsps[i].ResultString()))
+			failf("handler returned %s but Call returned a nil error (result %s)", nd, c14short(rsps[i].ResultString()))
 			continue
 		}
 		c.Count("calls_compared", 1)
 		// (a) the literal statement
 		hc, ec := jrpc2.ErrorCode(h), jrpc2.ErrorCode(e)
 		if hc != ec {
-			c.Failf("ErrorCode(client error)=%d != ErrorCode(handler error)=%d; handler returned %s; client got %s", ec, hc, nd, c14show(e))
+			failf("ErrorCode(client error)=%d != ErrorCode(handler error)=%d; handler returned %s; client got %s", ec, hc, nd, c14show(e))
 		}
 		// (b) documented classification of the structure
 		allowed, coders, canc, dead := c14allowed(nd)
 		cls, bad := c14class(e)
 		if bad != "" {
-			c.Failf("client error is %s; handler returned %s", bad, nd)
+			failf("client error is %s; handler returned %s", bad, nd)
 			continue
 		}
 		if !c14in(cls, allowed) {
-			c.Failf("client error %s has class %d, documentation allows %v for handler error %s", c14show(e), cls, c14ints(allowed), nd)
+			failf("client error %s has class %d, documentation allows %v for handler error %s", c14show(e), cls, c14ints(allowed), nd)
 		}
 		if !c14in(hc, allowed) {
-			c.Failf("ErrorCode(handler error)=%d, documentation allows %v for %s", hc, c14ints(allowed), nd)
+			failf("ErrorCode(handler error)=%d, documentation allows %v for %s", hc, c14ints(allowed), nd)
 		}
 		if len(allowed) > 1 {
 			c.Count("inputs_with_documented_ambiguity", 1)
@@ -800,15 +916,15 @@ func c14grammarBlock(c *vt.Ctx, id string, n int) {
 			ce, ok := e.(*jrpc2.Error)
 			switch {
 			case !ok:
-				c.Failf("handler returned bare %s; client got %s, want *jrpc2.Error", nd, c14show(e))
+				failf("handler returned bare %s; client got %s, want *jrpc2.Error", nd, c14show(e))
 			case ce.Code != nd.code:
-				c.Failf("handler returned bare %s; client code %d", nd, ce.Code)
+				failf("handler returned bare %s; client code %d", nd, ce.Code)
 			case ce.Message != nd.msg:
-				c.Failf("handler returned bare %s; client message %s", nd, c14short(ce.Message))
+				failf("handler returned bare %s; client message %s", nd, c14short(ce.Message))
 			case len(nd.data) == 0 && len(ce.Data) != 0:
-				c.Failf("handler returned bare %s (no data); client data %s", nd, c14short(string(ce.Data)))
+				failf("handler returned bare %s (no data); client data %s", nd, c14short(string(ce.Data)))
 			case len(nd.data) != 0 && !c14jsonEqual(nd.data, ce.Data):
-				c.Failf("handler returned bare %s; client data %s is not JSON-equal", nd, c14short(string(ce.Data)))
+				failf("handler returned bare %s; client data %s is not JSON-equal", nd, c14short(string(ce.Data)))
 			}
 			if len(nd.data) != 0 {
 				c.Count("bare_error_data_compares", 1)
@@ -820,15 +936,27 @@ func c14grammarBlock(c *vt.Ctx, id string, n int) {
 			okc := canc && e == context.Canceled
 			okd := dead && e == context.DeadlineExceeded
 			if !okc && !okd {
-				c.Failf("handler returned %s (context sentinel, no ErrCoder); client got %s, want exactly the sentinel", nd, c14show(e))
+				failf("handler returned %s (context sentinel, no ErrCoder); client got %s, want exactly the sentinel", nd, c14show(e))
 			}
 			if nd.depth() > 0 {
 				c.Count("ctx_sentinel_wrapped", 1)
 			}
 		}
-		c.Distinct(nd.shape())
+		if cancelled {
+			if ended[i] {
+				if hc == jrpc2.SystemError {
+					c.Count("cancelled_system_class_errors_compared", 1)
+				}
+				if nd.isErrorPtr() {
+					c.Count("cancelled_bare_error_field_compares", 1)
+				}
+				c.Distinct("cancelled:" + c14cancelName[modes[i]] + "/" + nd.shape())
+			}
+		} else {
+			c.Distinct(nd.shape())
+		}
 		if c.WantSample() && nd.depth() >= 2 {
-			c.Sample(map[string]any{"handler_error": nd.String(), "client_error": c14show(e),
+			c.Sample(map[string]any{"handler_error": nd.String(), "client_error": c14show(e), "server_side_context": c14cancelName[modes[i]],
 				"ErrorCode_handler": int(hc), "ErrorCode_client": int(ec), "documented_codes": c14ints(allowed)})
 		}
 	}
@@ -1189,7 +1317,16 @@ func c14cases(e vt.Env, yield func(vt.Case) bool) {
 	blocks, per := e.Pick(100, 1000), 500
 	for b := 0; b < blocks; b++ {
 		id := fmt.Sprintf("G/%d", b)
-		if !yield(vt.Case{ID: id, Run: func(c *vt.Ctx) { c14grammarBlock(c, id, per) }}) {
+		if !yield(vt.Case{ID: id, Run: func(c *vt.Ctx) { c14grammarBlock(c, id, per, false) }}) {
+			return
+		}
+	}
+	// X: the same grammar, every handler's server-side context cancelled
+	// (CancelRequest by itself / by a second handler called or notified / from outside) before it
+	// returns, caller's context live
+	for b := 0; b < e.Pick(40, 400); b++ {
+		id := fmt.Sprintf("X/%d", b)
+		if !yield(vt.Case{ID: id, Run: func(c *vt.Ctx) { c14grammarBlock(c, id, per, true) }}) {
 			return
 		}
 	}
@@ -1242,19 +1379,23 @@ func init() {
 			"messages incl. empty, escapes, unicode, 6 KB, data = random valid JSON with whitespace; jrpc2.Error value; Code.Err(); three custom ErrCoder types incl. one that wraps; " +
 			"context.Canceled / DeadlineExceeded; plain and %v-opaque errors; wrapped <=3 deep by fmt.Errorf %w, two-%w, errors.Join, custom Unwrap() error / Unwrap() []error), " +
 			"each returned by a handler of a live Server and compared with what a live Client.Call returns (4 concurrent callers, -race). " +
+			"X: the same grammar and the same oracle with the server-side context of every call cancelled before its handler returns (Server.CancelRequest(id) by the handler itself / by a second handler reached by a call / by a second handler reached by a notification / by a goroutine outside any handler; mode drawn per input), the caller's context live; the handler records ctx.Err()!=nil before returning. " +
 			"U: 18 kinds of unmarshalable handler results in a synctest bubble (quiescence decides 'missing response'), wire record checked. " +
 			"P1: ErrorCode(c.Err())==c on boundary ranges + 10^6 random codes (quick) / all 2^32 codes (thorough). P2: WithData receiver snapshot (fields, slice header, bytes up to capacity) " +
 			"over receivers x {nil, marshalable, unmarshalable, aliasing} values, result scribbled on, concurrent pairs. " +
-			"distinct_nontrivial = distinct structural shapes of delivered-and-compared handler errors (constructor tree with code/message/data reduced to classes) + distinct P2 (receiver class, value class) + P1/U blocks",
+			"distinct_nontrivial = distinct structural shapes of delivered-and-compared handler errors (constructor tree with code/message/data reduced to classes; in X only handlers whose context had really ended, keyed by (cancellation mode, shape)) + distinct P2 (receiver class, value class) + P1/U blocks",
 		Assumptions: []string{
 			"domain: messages are valid UTF-8, Data is valid JSON, ErrCoder codes other than on a bare *Error differ from NoError, no typed-nil error values",
 			"reference classification written from the doc comment of ErrorCode (ErrCoder first, then context.Canceled, context.DeadlineExceeded, else SystemError); where several ErrCoders or both sentinels occur any of them is accepted",
 			"JSON equality = equal values after decoding with UseNumber (number texts compared literally)",
 			"Go 1.26.8 encoding/json, errors, fmt; testing/synctest quiescence for block U",
+			"block X: the request is cancelled on the server only (Server.CancelRequest); cancellation of the caller's own context, where Call returns the context error by design, is outside this block. Server.CancelRequest returning before the target's context is Done, and a call sent after a notification starting only after the notification's handler returned, are relied on for coverage (counters), not for verdicts",
 		},
 		Require: map[string]int64{
 			"calls_compared": 10000, "bare_error_field_compares": 2000, "bare_error_data_compares": 500,
 			"ctx_sentinel_identity_checks": 1000, "ctx_sentinel_wrapped": 300,
+			"cancelled_handler_errors_compared": 10000, "cancelled_system_class_errors_compared": 800, "cancelled_bare_error_field_compares": 1500,
+			"cancelled_via_self": 1500, "cancelled_via_peer-call": 1500, "cancelled_via_peer-notification": 1500, "cancelled_via_direct": 1500,
 			"unmarshalable_results_answered_with_error": 18, "code_identity_checks": 1000000,
 			"withdata_checks": 10000, "withdata_copies_scribbled": 3000, "withdata_concurrent_pairs": 1000,
 		},
